@@ -148,11 +148,48 @@ fn pto(input: &[V]) -> Vec<V> {
     out
 }
 
+/// persistent_congestion::Calculator: case = [has_first; first_ts_us; cpath; (gap; dt_us; ack_eliciting; path)*]
+/// output: persistent_congestion_duration() in ns after each lost packet
+fn pc(input: &[V]) -> Vec<V> {
+    use s2n_quic_core::{
+        frame::ack_elicitation::AckElicitation, inet::ExplicitCongestionNotification, path,
+        recovery::{persistent_congestion::Calculator, SentPacketInfo},
+        transmission,
+    };
+    let first = if at(input, 0) != 0 { Some(ts(at(input, 1))) } else { None };
+    let cpath = unsafe { path::Id::new(at(input, 2) as u8) };
+    let mut calc = Calculator::new(first, cpath);
+    let sp = PacketNumberSpace::ApplicationData;
+    let mut out = vec![];
+    let (mut pnum, mut time, mut started) = (0u64, 1u64, false);
+    let mut i = 3;
+    while i + 4 <= input.len() {
+        let o = &input[i..i + 4];
+        i += 4;
+        pnum = if started { pnum + (o[0] as u64).max(1) } else { o[0] as u64 };
+        started = true;
+        time += o[1] as u64;
+        let info = SentPacketInfo::new(
+            true,
+            1200,
+            ts(time as V),
+            if o[2] != 0 { AckElicitation::Eliciting } else { AckElicitation::NonEliciting },
+            unsafe { path::Id::new(o[3] as u8) },
+            ExplicitCongestionNotification::default(),
+            transmission::Mode::Normal,
+            (),
+        );
+        calc.on_lost_packet(pn(sp, pnum as V), &info);
+        out.push(ns(calc.persistent_congestion_duration()));
+    }
+    out
+}
+
 /// recovery::Manager through the verif hook (see the hook for the op encoding)
 fn manager(input: &[V]) -> Vec<V> {
     s2n_quic_transport::verif_hooks::recovery::run(input)
 }
 
 fn main() {
-    main_with(&[("loss", loss), ("rtt", rtt), ("pto", pto), ("manager", manager)]);
+    main_with(&[("loss", loss), ("rtt", rtt), ("pto", pto), ("pc", pc), ("manager", manager)]);
 }
